@@ -15,6 +15,7 @@ import (
 	"os"
 	"path/filepath"
 	"runtime"
+	"runtime/pprof"
 	"sort"
 	"strconv"
 	"strings"
@@ -167,7 +168,12 @@ func genValue(r *hx.Rand, big int) []byte {
 type liveKey struct{ k, ns, e string }
 
 func genCase(r *hx.Rand, idx int, tier string) *hx.Case {
-	counts := []int{1, 1, 1, 2, 7, 256, 65535}
+	// every deploy scans the DKV once per owned key group (NewTimerStore), so large counts are kept rare
+	restore := r.Chance(1, 4)
+	counts := []int{1, 1, 1, 2, 7, 7, 256, 256, 65535}
+	if restore {
+		counts = []int{1, 1, 2, 7, 7, 200}
+	}
 	count := hx.Pick(r, counts)
 	maxSize := r.Range(1, 5)
 	tun := tuning{
@@ -190,7 +196,9 @@ func genCase(r *hx.Rand, idx int, tier string) *hx.Case {
 		nOps = r.Range(10, 90)
 		big = 2500
 	}
-	restore := r.Chance(1, 3)
+	if restore && nOps > 28 {
+		nOps = 28
+	}
 	live := map[liveKey]bool{}
 	var liveList []liveKey
 	var ops []json.RawMessage
@@ -481,7 +489,16 @@ func coqStates(sts []obsKeyState) string {
 
 var caseSeq int
 
-func (eng) Execute(mode string, c *hx.Case) (*hx.Result, error) {
+func (e eng) Execute(mode string, c *hx.Case) (*hx.Result, error) {
+	t0 := time.Now()
+	r, err := e.execute(mode, c)
+	if os.Getenv("C03_TIME") != "" {
+		fmt.Fprintf(os.Stderr, "%s %d ops %v %v\n", c.Name, len(c.Ops), time.Since(t0), c.Params)
+	}
+	return r, err
+}
+
+func (eng) execute(mode string, c *hx.Case) (*hx.Result, error) {
 	ops := make([]op, len(c.Ops))
 	needDir := false
 	for i, raw := range c.Ops {
@@ -509,7 +526,7 @@ func (eng) Execute(mode string, c *hx.Case) (*hx.Result, error) {
 	location := fmt.Sprintf("memory:///c03-%d", caseSeq)
 	dir := ""
 	if needDir {
-		d, err := os.MkdirTemp(scratchRoot(), "c03-")
+		d, err := os.MkdirTemp(scratchRoot(), "verif-c03-")
 		if err != nil {
 			return nil, err
 		}
@@ -615,7 +632,12 @@ func (eng) Execute(mode string, c *hx.Case) (*hx.Result, error) {
 			if err := old.WaitOnTasks(); err != nil { // the old process is dead: no writer left on the storage
 				return nil, fmt.Errorf("dkv background task: %w", err)
 			}
-			oldDBs = append(oldDBs, old) // keep its tables reachable (their GC cleanup deletes files: D11, C09's concern)
+			// Table objects delete their file when the Go GC collects them (known finding D11, C08/C09). A new process
+			// would not share a heap with the dead one; here: keep the old database reachable until the case ends, and
+			// let the cleanups of what it already dropped (compacted-away tables) run BEFORE the new database starts
+			// to write files under the same names.
+			oldDBs = append(oldDBs, old)
+			settleGC()
 			ck := job.ckpts[len(job.ckpts)-1]
 			if err := deploy([]*snapshotpb.OperatorCheckpoint{ck}); err != nil {
 				return nil, fmt.Errorf("redeploy from checkpoint %d: %w", ck.CheckpointId, err)
@@ -812,6 +834,22 @@ func bucket(name string, v int) string {
 	}
 }
 
+// settleGC runs the garbage collector and waits until cleanups queued by it have run (a sentinel object's
+// cleanup is queued by the same collection); a few rounds because cleanups may make more objects unreachable.
+func settleGC() {
+	for i := 0; i < 3; i++ {
+		done := make(chan struct{})
+		s := new([16]byte)
+		runtime.AddCleanup(s, func(ch chan struct{}) { close(ch) }, done)
+		s = nil
+		runtime.GC()
+		select {
+		case <-done:
+		case <-time.After(2 * time.Second):
+		}
+	}
+}
+
 func debugDump(db *dkv.DB, tag string) {
 	if os.Getenv("C03_DUMP") == "" {
 		return
@@ -833,8 +871,11 @@ var scratchDir string
 
 func scratchRoot() string {
 	if scratchDir == "" {
-		d := "/var/tmp/C03"
-		os.MkdirAll(d, 0o755)
+		// tiny tables, many fsyncs: prefer a memory-backed directory
+		d := "/dev/shm"
+		if st, err := os.Stat(d); err != nil || !st.IsDir() {
+			d = os.TempDir()
+		}
 		scratchDir = d
 	}
 	return scratchDir
@@ -843,6 +884,11 @@ func scratchRoot() string {
 func main() {
 	if os.Getenv("C03_LOG") == "" {
 		slog.SetDefault(slog.New(slog.NewTextHandler(io.Discard, nil)))
+	}
+	if pf := os.Getenv("C03_PROF"); pf != "" {
+		f, _ := os.Create(pf)
+		pprof.StartCPUProfile(f)
+		defer pprof.StopCPUProfile()
 	}
 	hx.Main(eng{})
 }
